@@ -464,6 +464,6 @@ fn table_oracle(c: &TableCase, info: &mut Case) -> Result<(), String> {
 }
 
 pub fn run(ctx: &Ctx) {
-    ctx.explore("shard", ctx.tier.pick(500, 12_000), 16, shard_case, shard_oracle);
-    ctx.explore("table", ctx.tier.pick(6_000, 250_000), 16, table_case, table_oracle);
+    ctx.explore("shard", ctx.tier.pick(1_500, 30_000), 16, shard_case, shard_oracle);
+    ctx.explore("table", ctx.tier.pick(20_000, 600_000), 16, table_case, table_oracle);
 }
